@@ -31,10 +31,29 @@ def module_anchors(path):
     the module mentions is one of its anchors and stays a call; any other private helper is expanded in place"""
     if path not in _ANCHORS:
         try:
-            _ANCHORS[path] = set(re.findall(r"[A-Za-z_][A-Za-z0-9_]*", open(path).read()))
+            ids = set(re.findall(r"[A-Za-z_][A-Za-z0-9_]*", open(path).read()))
         except OSError:
-            _ANCHORS[path] = set()
+            ids = set()
+        # only names of functions that exist on the unchanged tree can be anchors: an English word of a comment / message in the rule
+        # file (`validated`, `checked`, `stats`) must not stop a NEW helper of that name from being expanded
+        known = _known_fn_names()
+        _ANCHORS[path] = (ids & known) if known else ids
     return _ANCHORS[path]
+
+
+_KNOWN_FN_NAMES = None
+
+
+def _known_fn_names():
+    global _KNOWN_FN_NAMES
+    if _KNOWN_FN_NAMES is None:
+        import json, os
+        p = os.path.join(os.path.dirname(os.path.abspath(__file__)), "anchors.json")
+        try:
+            _KNOWN_FN_NAMES = set(x.rsplit("::", 1)[-1] for x in json.load(open(p)).get("known_paths", []))
+        except (OSError, ValueError):
+            _KNOWN_FN_NAMES = set()
+    return _KNOWN_FN_NAMES
 
 
 class MethodView:
@@ -239,6 +258,30 @@ class MethodView:
             if ds is not None and len(ds) > 1:
                 return ("or", tuple(P.norm(d) for d in ds))
         return P.norm(self.fr.closure_ret(clos, [el], site_hint=site))
+
+    def ok_only_via(self, bb):
+        """the function's non-error return value is the Result of the call ending block `bb`, handed on through adaptors that keep
+        Ok-ness (`map`, `map_err`, `context`, `with_context`): the function returns Ok iff that call returned Ok"""
+        rt = P.norm(self.fr.return_term())
+        mem = rt[2] if (isinstance(rt, tuple) and rt and rt[0] == "phi") else (rt,)
+
+        def is_err(m):
+            m = P.norm(m)
+            return isinstance(m, tuple) and m and (m[0] == "err" or (m[0] == "call" and m[2].endswith("::from_residual")))
+
+        def unwrap(m):
+            m = P.norm(m)
+            for _ in range(6):
+                if (P.call_name(m) or "").rsplit("::", 1)[-1] in ("map", "map_err", "context", "with_context") and m[4]:
+                    m = P.norm(m[4][0])
+                elif isinstance(m, tuple) and m and m[0] == "map" and len(m) >= 3:
+                    m = P.norm(m[1])
+                else:
+                    break
+            return m
+        want = P.norm(self.fr.call_term(bb))
+        rest = [unwrap(m) for m in mem if not is_err(m)]
+        return len(rest) == 1 and rest[0] == want
 
     def self_field_writes(self):
         """[(bb, [field names])] of every direct assignment through `self` (own or an expanded helper's)"""
